@@ -125,6 +125,29 @@ theorem sweep_changes_nothing (c : Csr Rat) (l' : List Int) (index : List Nat)
   have := (Vote.voteUpdate_config_iff c l' index).mp h
   rw [this, this]
 
+/-- ★ **vote_fixed_point, the clause as the property states it**: when label propagation stops *because a sweep
+    changes nothing* — `fit` made `t + 1` sweeps and the last one left `labels[index_remain]` as the `t`-th iterate had
+    it —, every node without a given label (every node, with no label or a single class) that has a labelled neighbour
+    holds a label whose total vote among its neighbours is maximal.  No stability hypothesis is left to discharge:
+    it follows from `propagation_stop_reason` and `sweep_changes_nothing`. -/
+theorem propagation_fixed_point_of_last_sweep (c : Csr Rat) (hw : ∀ p, 0 ≤ c.data.getD p 0) (values : List Int)
+    (a : Vote.PropArgs) (fuel : Nat) (hsig : Vote.SigmaOK a.sigma (Vote.instantiateVars values).2.length)
+    (l : List Int) (t : Nat) (h : Vote.fit c values a fuel = some (l, t + 1))
+    (hlast : Vote.config
+        ((fun l => Vote.voteUpdate (Vote.withWeights c a.weighted) l (Vote.start values a.sigma).2)^[t]
+          (Vote.start values a.sigma).1) (Vote.start values a.sigma).2 = Vote.config l (Vote.start values a.sigma).2) :
+    ∀ i, i < values.length → (Vote.singleClass values = true ∨ values.getD i (-1) < 0) →
+      Spec.hasLabelledNeighbour (Vote.withWeights c a.weighted) l i = true →
+      Spec.localMax (Vote.withWeights c a.weighted) l i = true := by
+  obtain ⟨hl, _⟩ := propagation_stop_reason c values a fuel l (t + 1) h
+  rw [Function.iterate_succ_apply'] at hl
+  have hst : Vote.voteUpdate (Vote.withWeights c a.weighted) l (Vote.start values a.sigma).2 = l := by
+    have h1 := sweep_changes_nothing (Vote.withWeights c a.weighted) _ (Vote.start values a.sigma).2
+      (by rw [← hl]; exact hlast.symm)
+    rw [← hl] at h1
+    exact h1
+  exact propagation_fixed_point c hw values a fuel hsig l (t + 1) h hst
+
 /-- ★ **seeds_kept** (Propagation).  With at least two classes among the given labels, every seed keeps its
     label, whatever the number of sweeps, the node order and the weighting. -/
 theorem propagation_seeds_kept (c : Csr Rat) (hw : ∀ p, 0 ≤ c.data.getD p 0) (values : List Int)
